@@ -26,18 +26,18 @@ def resolve(X, name):
     """-> dict(kind='formula'|'nist', Z=array, w=array, density=None|float) or None, exactly as the public API resolves it"""
     if name is None:
         return None
+    # the compound's true composition: for strings the independent reference parser rules VALID its exact expansion is used whatever
+    # the library's own parser says (a formula it mis-parses or wrongly rejects shows up as a wrong mixture / a spurious error),
+    # otherwise what the library reports
+    try:
+        v = fm.classify(name.encode('latin1', 'replace'))
+        if v.cls == 'VALID':
+            m = fm.model(v.comp)
+            return dict(kind='formula', Z=np.array(m['Elements']), w=np.array(m['massFractions']), density=None)
+    except Exception:
+        pass
     r = X.parse(name)
     if not isinstance(r, xl.Err):
-        # the compound's true composition: for strings the independent reference parser rules VALID its exact expansion is
-        # used (so a formula the library mis-parses shows up here as a wrong mixture), otherwise what the library reports
-        try:
-            from . import formula_model as fm
-            v = fm.classify(name.encode('latin1', 'replace'))
-            if v.cls == 'VALID':
-                m = fm.model(v.comp)
-                return dict(kind='formula', Z=np.array(m['Elements']), w=np.array(m['massFractions']), density=None)
-        except Exception:
-            pass
         return dict(kind='formula', Z=np.array(r['Elements']), w=np.array(r['massFractions']), density=None)
     r = X.nist(name)
     if not isinstance(r, xl.Err):
@@ -61,6 +61,9 @@ def names_for(X, rng, tier):
     Gall, Glight = fm.Gen(rng, wl, max_len=60), fm.Gen(rng, light, max_len=60)
     out = ['H2O', 'AgMd', 'Ca5(PO4)3F', 'SiO2', 'C6H12O6', 'Fe0.95O', '(H2O)0.5', 'Pb(Zr0.52Ti0.48)O3', 'K(AlSi3)O8', 'U3O8']
     out += wl                                                   # every weighable element on its own
+    # long strings (private buffers) and subscripts with many decimals (their counts must not all carry the same number of decimals)
+    out += ['CH2' * 341 + 'O9', 'C2H4' * 300 + 'Cl', '(' + 'CH2' * 400 + ')3O', 'Si' + 'O' * 2100, 'Ca' + '(OH)2' * 3000 + 'F',
+            'Fe0.9470000000O', 'Al0.3333333333Ga0.6666666667As', '(SiO2)0.66666666666666663(Na2O)0.5', 'Cu0.12345678901234567Zn2', 'H0.5000000000001O3.25']
     for s in wl:                                                # ... and inside a generated (nested / fractional) formula
         out.append(fm.render((Glight if fm.ZOF[s] <= 92 else Gall).formula(must_contain=s)))
     for _ in range(120 if tier == 'quick' else 1500):
@@ -208,15 +211,17 @@ def check_refractive(ck, L, X, names, comps, nist_names, st):
     Ln = execlib.Lib(L.config, env={'XV_NOSLOT': '1'})
     re0, im0 = Ln.multi([('Refractive_Index_Re', nn, ee, dd), ('Refractive_Index_Im', nn, ee, dd)])
     cx0 = Ln.special('Refractive_Index', s=nn, d=[ee, dd])
-    for fn, a, b in (('Refractive_Index_Re', re, re0), ('Refractive_Index_Im', im, im0), ('Refractive_Index', cx, cx0)):
+    cx2 = L.special('Refractive_Index', s=nn, d=[ee, dd], helper=True)      # Refractive_Index2, the by-pointer entry point of the bindings
+    for fn, a, b in (('Refractive_Index_Re', re, re0), ('Refractive_Index_Im', im, im0), ('Refractive_Index', cx, cx0), ('Refractive_Index2', cx, cx2)):
         va, vb = a.v3[:, :2], b.v3[:, :2]
         bad = np.nonzero(((va.view('u8') != vb.view('u8')) & ~(np.isnan(va) & np.isnan(vb))).any(axis=1))[0]
         for r in bad[:2]:
-            ck.violation('c06:%s:value-without-error-slot-differs' % fn,
-                         '%s(%s,%r,%r) returns %r without an error slot and %r (%s) with one' % (fn, show(rows[r][0]), rows[r][1], rows[r][2], vb[r].tolist(), va[r].tolist(),
-                                                                                             a.msg(r) if a.err[r] else 'success'),
-                         dict(call='%s(%s,%r,%r)' % (fn, show(rows[r][0]), rows[r][1], rows[r][2]), config=L.config, error_slot=False))
-    st['calls'] += 6 * len(rows) + fi.v.size * 2 + len(Zall)
+            helper = fn.endswith('2')
+            ck.violation(('c06:%s:differs-from-Refractive_Index' if helper else 'c06:%s:value-without-error-slot-differs') % fn,
+                         ('%s(%s,%r,%r) stores %r, Refractive_Index returns %r (%s)' if helper else '%s(%s,%r,%r) returns %r without an error slot and %r (%s) with one') % (
+                             fn, show(rows[r][0]), rows[r][1], rows[r][2], vb[r].tolist(), va[r].tolist(), a.msg(r) if a.err[r] else 'success'),
+                         dict(call='%s(%s,%r,%r)' % (fn, show(rows[r][0]), rows[r][1], rows[r][2]), config=L.config, error_slot=not helper))
+    st['calls'] += 7 * len(rows) + fi.v.size * 2 + len(Zall)
     eidx = {e: k for k, e in enumerate(ENERGIES)}
     nre = nim = nexp_fail = 0
     for r, (name, e, d) in enumerate(rows):
